@@ -106,8 +106,14 @@ let () =
        let line = input_line stdin in
        incr lineno;
        if String.length line > 0 && line.[0] <> ';' then begin
-         let v = parse_line line in
-         let r = check v in
+         (* a line the driver cannot parse (the harness printed something unexpected) or a model
+            evaluation that raises (stack overflow) is a failing case, not a crash of the check *)
+         match (try Some (check (parse_line line)) with Stack_overflow -> None | Failure _ -> None | Invalid_argument _ -> None | Not_found -> None) with
+         | None ->
+           incr total;
+           Hashtbl.replace tags (-3) (1 + (try Hashtbl.find tags (-3) with Not_found -> 0));
+           Printf.printf "F %d 0 0 -3\n" !lineno
+         | Some r ->
          incr total;
          let t = to_int_z r.tag in
          Hashtbl.replace tags t (1 + (try Hashtbl.find tags t with Not_found -> 0));
